@@ -129,3 +129,14 @@ From Scrapli Require Import DecideLang GeneratedSkel NcStoreSrc.
 Theorem C08_store_is_source : nc_store_ok = true.
 Proof. exact nc_store_is_source. Qed.
 Print Assumptions C08_store_is_source.
+
+(* THE TIE BY TRANSLATION for sendRPC (the polling goroutine one effect whose text is pinned): for
+   every combination of what can happen — serialisation or a write failing, version, and which of
+   the three communications ends the wait — the framed request and a return are written (a second
+   return under 1.1), a read-loop error ends the call with that error, the timer with the timeout
+   error (wrapping util.ErrTimeoutError), and otherwise the reply taken under THIS message's id is
+   recorded into the response built from the serialized request (48 runs; every test known). *)
+From Scrapli Require Import DecideLang GeneratedSkel RpcSrc.
+Theorem C08_send_rpc_is_source : rpc_table_ok = true /\ tests_known send_rpc_code send_rpc_known = true.
+Proof. exact send_rpc_is_source. Qed.
+Print Assumptions C08_send_rpc_is_source.
